@@ -1,6 +1,15 @@
 """C18 — every accepted interest curve is usable, bounded and non-decreasing."""
 from fractions import Fraction
 ID = "C18"
+MANIFEST = {
+    "text": ("Kernel-checked theorems: for every configuration accepted by validate_seven_point (any number of points) and every "
+             "utilisation bit pattern the base rate is defined, lies in [zero,hundred], is monotone and interpolates the configured "
+             "points; borrow >= base, lend <= base on [0,1]; calc_interest_rate total for bounded non-negative fees; legacy curve "
+             "defined/bounded/monotone on [0,1]. Tied to the real InterestRateConfig::validate / InterestRateCalc by differential "
+             "execution with utilisations at every breakpoint +-2 ulp."),
+    "design_ref": "DESIGN.md §7 C18",
+    "technique": "Coq proof by induction over the point list + model/implementation correspondence (extracted model vs real calc_interest_rate)",
+}
 THEOREMS = [
     "C18_curve_defined_and_bounded", "C18_curve_monotone", "C18_curve_hits_points",
     "C18_curve_endpoints", "C18_borrow_ge_base_lend_le_base", "C18_accrual_rate_total",
